@@ -543,6 +543,35 @@ static std::string doStep(const vj::Val& st) {
       c.ctx->returnCondition(false);
       o += "," + stateJson(*c.ctx);
     }
+    else if (op == "execsplice") {
+      /* a byte inserted at (or replacing) every position of the text; each variant compiled and run in a fresh context */
+      std::string t = st.str("text");
+      int byte = (int)st.num("byte", 0);
+      bool ins = st.str("mode", "insert") == "insert";
+      int nok = 0, nparse = 0, nrun = 0, nbad = 0; long firstbad = -1;
+      size_t n = t.size();
+      for (size_t k = 0; k <= n; ++k) {
+        if (!ins && k >= n) break;
+        std::string v = t;
+        if (ins) v.insert(v.begin() + k, (char)byte); else v[k] = (char)byte;
+        int fd = memfd_create("vs", 0);
+        Context* cx = new Context(fd, fd);
+        Executable* ex = nullptr;
+        try {
+          StringReader rd(v);
+          ex = Parser::parse(*cx, rd);
+          if (ex) { ex->run(); ++nok; }
+        }
+        catch (ParseError&) { ++nparse; }
+        catch (RuntimeError&) { ++nrun; }
+        catch (...) { ++nbad; if (firstbad < 0) firstbad = (long)k; }
+        if (ex) delete ex;
+        delete cx;
+        close(fd);
+      }
+      o += std::string(",\"oc\":") + (nbad ? "\"foreign_exception\"" : "\"ok\"") + ",\"nok\":" + std::to_string(nok) + ",\"nparse\":" + std::to_string(nparse) +
+           ",\"nrun\":" + std::to_string(nrun) + ",\"firstbad\":" + std::to_string(firstbad) + ",\"ctrl\":0,\"lvl\":0";
+    }
     else if (op == "cli") {
       o += ",\"oc\":\"ok\"," + runCli(st);
     }
